@@ -52,7 +52,7 @@ func errorFamilyPaths(maxLen int) []*Expr {
 	// arithmetic and unary operators over failing / succeeding operands at each position
 	// (the last two yield items first and fail on a later element)
 	ops := []*Expr{eRoot(), eRoot(sKey("a")), eRoot(sAnyArray()), eStr("a"), eInt(1), eVar("missing"), eRoot(sKey("a"), sMethod("double")),
-		eRoot(sAnyArray(), sMethod("double")), eRoot(sAnyArray(), sMethod("integer"))}
+		eRoot(sAnyArray(), sMethod("double")), eRoot(sAnyArray(), sMethod("integer")), eRoot(sIndex(subR(eInt(0), eInt(1))), sKey("a"))}
 	for _, a := range ops {
 		es = append(es, eNeg(a), ePos(a))
 		for _, b := range ops {
